@@ -42,6 +42,14 @@ def jobs_for(tier, rng):
         jobs.append({"mdp": m, "kind": "RVI", "gamma": [1, 1], "eps": eps, "calls": [40], "gamma_as_int": k % 3 == 0,
                      "eps_as_int": k % 5 == 0,
                      "mbs": rng.choice([1, 2, 3, 1024]), "cert": True, "tag": f"rvi{k}"})
+    # degenerate shapes: one state / action / event, all-zero rewards
+    from . import tabular as T
+    for k, (ns, na, ne) in enumerate([(1, 1, 1), (1, 2, 1), (1, 1, 2), (1, 3, 3), (2, 1, 1), (3, 1, 2)]):
+        m = T.random_mdp(rng, ns=ns, na=na, ne=ne, PD=1 if ne == 1 else 2, rmax=rng.choice([0, 2]), v0max=rng.choice([0, 3]),
+                         plain_render=k % 2 == 0)
+        gen.fix_dups(m)
+        jobs.append({"mdp": m, "kind": "RVI", "gamma": [1, 1], "eps": [1, rng.choice([0, 2])], "calls": rng.choice([[1], [1, 1, 6], [12]]),
+                     "mbs": rng.choice([1, 1024]), "cert": ns == 1, "tag": f"rvi-degenerate{k}"})
     # tens of thousands of states; the trace is reduced exactly (solver_worker.quotient)
     for N in ([20100] if tier == "quick" else [20100, 50021]):
         jobs.append({"mdp": gen.corridors(rng, N, [3, 2]), "kind": "RVI", "gamma": [1, 1], "eps": [1, 2], "calls": [5, 4],
